@@ -29,7 +29,7 @@ type PField struct {
 	Kind   string `json:"kind"`   // scalar kind name, "enum" or "message" (for maps: kind of the value)
 	Card   string `json:"card"`   // one | rep | map
 	Packed bool   `json:"packed"` // repeated scalar encoded packed
-	Msg    string `json:"msg"`    // message type name (kind message)
+	Msg    string `json:"mt"`     // message type name (kind message)
 	KKind  string `json:"kkind"`  // map key kind
 }
 type PSchema struct {
@@ -38,7 +38,10 @@ type PSchema struct {
 }
 
 var pScalarKinds = []string{"double", "float", "int32", "int64", "uint32", "uint64", "sint32", "sint64", "fixed32", "fixed64", "sfixed32", "sfixed64", "bool", "string", "bytes"}
-var pKeyKinds = []string{"int32", "int64", "uint32", "uint64", "sint32", "sint64", "fixed32", "fixed64", "sfixed32", "sfixed64", "bool", "string"}
+
+// map key kinds of the supported subset (C07..C10: map<int*|uint*|string, ...>); the full list is used where a property says "every key kind"
+var pKeyKinds = []string{"int32", "int64", "uint32", "uint64", "string", "string"}
+var pAllKeyKinds = []string{"int32", "int64", "uint32", "uint64", "sint32", "sint64", "fixed32", "fixed64", "sfixed32", "sfixed64", "bool", "string"}
 
 func printProto(s PSchema) string {
 	var sb strings.Builder
